@@ -143,6 +143,7 @@ unsafe extern "C" {
 
     fn lol_html_doc_end_append(d: *mut c_void, s: *const c_char, len: size_t, html: bool) -> c_int;
     fn lol_html_streaming_sink_write_str(sink: *mut c_void, s: *const c_char, len: size_t, html: bool) -> c_int;
+    fn lol_html_streaming_sink_write_utf8_chunk(sink: *mut c_void, s: *const c_char, len: size_t, html: bool) -> c_int;
 }
 
 /// Free orders / misuse variants permitted by the header.
@@ -192,6 +193,8 @@ struct EndCtx {
 struct StreamCtx {
     world: *mut World,
     pieces: Vec<String>,
+    /// non-empty: write these byte pieces through lol_html_streaming_sink_write_utf8_chunk
+    byte_pieces: Vec<Vec<u8>>,
     html: bool,
 }
 
@@ -226,6 +229,16 @@ unsafe extern "C" fn sink_cb(chunk: *const c_char, len: size_t, ud: *mut c_void)
 
 unsafe extern "C" fn stream_write_cb(sink: *mut c_void, ud: *mut c_void) -> c_int {
     let c = unsafe { &*ud.cast::<StreamCtx>() };
+    if !c.byte_pieces.is_empty() {
+        for p in &c.byte_pieces {
+            let r = unsafe { lol_html_streaming_sink_write_utf8_chunk(sink, p.as_ptr().cast(), p.len(), c.html) };
+            if r != 0 {
+                // like `?` on the Result of the Rust method
+                return 1;
+            }
+        }
+        return 0;
+    }
     for p in &c.pieces {
         unsafe { lol_html_streaming_sink_write_str(sink, p.as_ptr().cast(), p.len(), c.html) };
     }
@@ -248,7 +261,7 @@ fn pieces(s: &str, k: u8) -> Vec<String> {
 }
 
 unsafe fn streamer(w: *mut World, c: &Content) -> lol_html_streaming_handler_t {
-    let ctx = Box::into_raw(Box::new(StreamCtx { world: w, pieces: pieces(&c.s, c.stream), html: c.html }));
+    let ctx = Box::into_raw(Box::new(StreamCtx { world: w, pieces: pieces(&c.s, c.stream), byte_pieces: if c.utf8_chunks > 0 { crate::scenario::byte_pieces(&c.s, c.utf8_chunks) } else { vec![] }, html: c.html }));
     unsafe {
         (*w).keep_stream.push(ctx);
         (*w).streams_created += 1;
@@ -815,6 +828,7 @@ fn mk_history(w: World, outcome: Outcome, in_after: Vec<usize>, out_after: Vec<u
     let ticks = w.evs.len();
     History {
         evs: w.evs,
+        clean: vec![],
         out: w.out,
         in_after_write: in_after,
         out_after_write: out_after,
